@@ -27,8 +27,12 @@ def string_corpus():
     for v in NUM_TEXTS:
         for cmd in ([b"INCR", b"k1"], [b"DECR", b"k1"], [b"INCRBY", b"k1", b"1"], [b"DECRBY", b"k1", b"1"], [b"APPEND", b"k1", v]):
             out.append(("stored-num-text", [[b"SET", b"k1", v], cmd, [b"GET", b"k1"]]))
-        for cmd in ([b"INCRBY", b"k1", v], [b"DECRBY", b"k1", v], [b"GETRANGE", b"k1", v, b"-1"], [b"GETRANGE", b"k1", b"0", v], [b"SETRANGE", b"k1", v, b"zz"],
-                    [b"SET", b"k1", b"w", b"EX", v], [b"SET", b"k1", b"w", b"PX", v], [b"EXPIRE", b"k1", v], [b"PEXPIRE", b"k1", v], [b"SETEX", b"k1", v, b"w"]):
+        cmds = [[b"INCRBY", b"k1", v], [b"DECRBY", b"k1", v], [b"GETRANGE", b"k1", v, b"-1"], [b"GETRANGE", b"k1", b"0", v], [b"SETRANGE", b"k1", v, b"zz"],
+                [b"SET", b"k1", b"w", b"EX", v], [b"EXPIRE", b"k1", v], [b"SETEX", b"k1", v, b"w"]]
+        if v not in (b"+5", b"007", b"00000000000000000000001"):
+            # a time of a few milliseconds would race with the next command: millisecond forms only with texts that are refused, non-positive or huge
+            cmds += [[b"SET", b"k1", b"w", b"PX", v], [b"PEXPIRE", b"k1", v], [b"PSETEX", b"k1", v, b"w"]]
+        for cmd in cmds:
             out.append(("arg-num-text", [[b"SET", b"k1", b"10"], cmd, [b"GET", b"k1"], [b"PERSIST", b"k1"]]))
     return out
 
